@@ -10,8 +10,9 @@ NS = "EngineModel.Properties.C15CratesV1."
 LEAN_MODULES = ["Properties.C15CratesV1"]
 THEOREMS = [NS + t for t in [
     "v1c_C15_no_ub", "v1c_C15_invariant", "v1c_C15_empty", "v1c_C15_reachable_no_ub", "v1c_C15_queries_no_ub",
-    "v1c_C15_stale_crate_invalid", "v1c_C15_dead_crate_throws", "v1c_C15_descendant_parent_refused",
-    "v1c_C15_stale_track_invalid"]]
+    "v1c_C15_stale_crate_one_step", "v1c_C15_stale_crate_partial", "v1c_C15_stale_crate_counterexample",
+    "v1c_C15_dead_crate_throws", "v1c_C15_descendant_parent_refused", "v1c_C15_stale_track_one_step",
+    "v1c_C15_cyclic_table_counterexample"]]
 ASSUMPTIONS = [
     "crates 1.x: the only undefined-behaviour source of this code that is not SQLite's or sqlite_modern_cpp's is the "
     "unbounded recursion of update_path over children() (stack exhaustion on a cyclic parent list); the model "
